@@ -162,6 +162,9 @@ class FakeNet:
 
     async def open_connection(self, host=None, port=None, **kwargs):
         key = (host, port)
+        if isinstance(port, int) and not 0 <= port <= 65535:
+            # what the socket layer does for a port that is not one (a PASV reply may carry any six numbers)
+            raise OverflowError('connect(): port must be 0-65535.')
         if key in self.refuse:
             raise ConnectionRefusedError(111, 'Connection refused')
         factory = self.handlers.get(key) or self.handlers.get((None, port)) or self.default
